@@ -14,11 +14,16 @@
 (* RegisterFirst = TRUE is the design (register, then queue);               *)
 (* RegisterFirst = FALSE is the pinned tree's order (queue, then register), *)
 (* which loses the wake-up when the answer is handled in between.           *)
+(* PopFirst = TRUE: the dispatcher takes the waiter out of the registry and   *)
+(* then wakes it; FALSE is the earlier order (wake, wait for the caller, pop) *)
+(* which removes the NEXT registration of a caller that re-sends the same     *)
+(* request as soon as it is awake (Resend.tla).                              *)
 (* Decides C14.                                                            *)
 (***************************************************************************)
 EXTENDS Naturals, FiniteSets, TLC
 
-CONSTANTS K, RegisterFirst, Duplicates       \* callers 1..K; Duplicates: the peer may repeat an answer once
+CONSTANTS K, RegisterFirst, Duplicates,      \* callers 1..K; Duplicates: the peer may repeat an answer once
+          PopFirst                           \* the dispatcher unregisters the waiter before it wakes it (the design; see Resend.tla)
 
 Callers == 1..K
 Disp == Callers \X (IF Duplicates THEN {1, 2} ELSE {1})      \* dispatcher threads: <<c, copy>>
@@ -64,15 +69,15 @@ Arrive(d) == /\ d[1] \in queued /\ dpc[d] = "idle"
              /\ UNCHANGED <<cpc, queued, pending, recvEv, stopEv, pmsg, got>>
 \* ---- dispatcher d for the answer to caller d[1]
 Check(d) == /\ dpc[d] = "check"
-            /\ dpc' = [dpc EXCEPT ![d] = IF d[1] \in pending THEN "notify" ELSE "dropped"]
+            /\ dpc' = [dpc EXCEPT ![d] = IF d[1] \in pending THEN (IF PopFirst THEN "pop" ELSE "notify") ELSE "dropped"]
             /\ UNCHANGED <<cpc, queued, pending, recvEv, stopEv, pmsg, got>>
 Notify(d) == /\ dpc[d] = "notify"
              /\ pmsg' = [pmsg EXCEPT ![d[1]] = d[1]] /\ recvEv' = [recvEv EXCEPT ![d[1]] = TRUE]
              /\ dpc' = [dpc EXCEPT ![d] = "waitstop"]
              /\ UNCHANGED <<cpc, queued, pending, stopEv, got>>
-WaitStop(d) == /\ dpc[d] = "waitstop" /\ stopEv[d[1]] /\ dpc' = [dpc EXCEPT ![d] = "pop"]
+WaitStop(d) == /\ dpc[d] = "waitstop" /\ stopEv[d[1]] /\ dpc' = [dpc EXCEPT ![d] = IF PopFirst THEN "end" ELSE "pop"]
                /\ UNCHANGED <<cpc, queued, pending, recvEv, stopEv, pmsg, got>>
-Pop(d) == /\ dpc[d] = "pop" /\ pending' = pending \ {d[1]} /\ dpc' = [dpc EXCEPT ![d] = "end"]
+Pop(d) == /\ dpc[d] = "pop" /\ pending' = pending \ {d[1]} /\ dpc' = [dpc EXCEPT ![d] = IF PopFirst THEN "notify" ELSE "end"]
           /\ UNCHANGED <<cpc, queued, recvEv, stopEv, pmsg, got>>
 
 AllDone == /\ \A c \in Callers : cpc[c] = "done"
